@@ -386,7 +386,21 @@ func c46(c *Ctx) {
 		c.Expect(RangeValueOf(FieldLoad(c.field(xres, "configSelector", "routes")))(fieldBase(mc.Common().Args[0])) || DataDep(RangeValueOf(FieldLoad(c.field(xres, "configSelector", "routes"))))(mc.Common().Args[0]), mc, sc, "routes-walked-in-order", "the routes are not walked in configuration order")
 		nx := one(c, "wrr Next", callsIn(sc, Callee("internal/wrr", "WRR.Next")))
 		c.Expect(FieldLoad(c.field(xres, "route", "clusters"))(nx.Common().Value), nx, sc, "cluster-from-the-route's-wrr", "the cluster is not drawn from the matched route's weighted clusters")
+		c.MustFact(nx, "cluster-drawn-only-from-a-matched-route-with-clusters", NotNil(FieldLoad(c.field(xres, "route", "clusters"))))
+		c.MustFact(nx, "cluster-drawn-only-with-a-matched-route", NotNil(func(v ssa.Value) bool {
+			p, ok := v.(*ssa.Phi)
+			return ok && typeName(p.Type()) == "route"
+		}))
+		c.MustFact(nx, "cluster-drawn-only-for-a-route-action", Cmp(FieldLoad(c.field(xres, "route", "actionType")), token.EQL, ConstOfObj(c.konst(xdsrsrc, "RouteActionRoute"))))
 		spc := one(c, "SetPickedCluster", callsIn(sc, Callee("internal/xds/balancer/clustermanager", "SetPickedCluster")))
+		c.MustFact(spc, "picked-cluster-only-from-a-successful-draw", Truth(func(v ssa.Value) bool {
+			e, ok := v.(*ssa.Extract)
+			if !ok || e.Index != 1 {
+				return false
+			}
+			ta, ok := e.Tuple.(*ssa.TypeAssert)
+			return ok && ta.X == nx.Value()
+		}, true))
 		c.ArgIs(spc, 1, "picked-cluster-is-the-drawn-one", DataDep(func(v ssa.Value) bool { return v == nx.Value() }))
 	})
 	c.Ob("hash-inputs", "R8", "generateHash: the returned hash depends only on hash-policy fields, header values looked up by the policy's header name, and the channel id; random only when no policy generated a hash; -bin header policies skipped; terminal stops only with a hash", 8, func() {
@@ -497,8 +511,95 @@ func c46(c *Ctx) {
 			}
 			c.Expect(len(producers) == 2, nil, f, "two-producers", "expected the header and channel-id producers")
 		}
+		// per-policy flag: a policy's hash is mixed in exactly when that policy produced one
+		rot := one(c, "RotateLeft64", callsIn(f, CalleeX("math/bits", "RotateLeft64")))
+		var pflag *ssa.Phi
+		for _, fc := range FactsAt(rot) {
+			if fc.Kind == "truth" && fc.Pol {
+				if p, ok := fc.X.(*ssa.Phi); ok && FlagTrue()(p) && p != flag {
+					pflag = p
+				}
+			}
+		}
+		if c.Expect(pflag != nil, rot, f, "mixed-in-only-when-this-policy-produced-a-hash", "the combination step is not guarded by a per-policy 'produced a hash' flag") {
+			ptrue := map[*ssa.BasicBlock]bool{}
+			seenP := map[*ssa.Phi]bool{}
+			var walkP func(q *ssa.Phi)
+			walkP = func(q *ssa.Phi) {
+				if seenP[q] {
+					return
+				}
+				seenP[q] = true
+				for i, e := range q.Edges {
+					if ConstBool(true)(e) {
+						ptrue[q.Block().Preds[i]] = true
+					}
+					if x, ok := e.(*ssa.Phi); ok {
+						walkP(x)
+					}
+				}
+			}
+			walkP(pflag)
+			for _, ci := range callsIn(f, CalleeX("github.com/cespare/xxhash/v2", "Sum64String")) {
+				c.Expect(ptrue[ci.Block()], ci, f, "header-hash-marks-the-policy-as-producing", "the header hash is computed but never mixed into the result")
+			}
+			for _, b := range f.Blocks {
+				for _, in := range b.Instrs {
+					if u, ok := in.(*ssa.UnOp); ok && FieldLoad(c.field(xres, "configSelector", "channelID"))(u) {
+						c.Expect(ptrue[b], in, f, "channel-id-marks-the-policy-as-producing", "the channel id is read but never mixed into the result")
+					}
+				}
+			}
+		}
+		// terminal: the policy walk stops early only at a terminal policy once some hash exists
+		for _, b := range f.Blocks {
+			isHdr := false
+			for _, in := range b.Instrs {
+				if bo, ok := in.(*ssa.BinOp); ok && bo.Op == token.LSS && isRangeIndex(bo.X) {
+					if l := builtinCall(bo.Y, "len"); l != nil && ParamV("hashPolicies")(l.Call.Args[0]) {
+						isHdr = true
+					}
+				}
+			}
+			if !isHdr {
+				continue
+			}
+			bp := breakPreds(b)
+			c.Expect(len(bp) == 1, b.Instrs[0], f, "one-terminal-stop", "expected exactly one early exit from the policy walk")
+			for _, p := range bp {
+				for _, fs := range incomingFacts(p, b.Succs[1]) {
+					_, t := hasFact(fs, Truth(FieldLoad(c.field(xdsrsrc, "HashPolicy", "Terminal")), true))
+					_, g := hasFact(fs, Truth(func(v ssa.Value) bool { ph, ok := v.(*ssa.Phi); return ok && FlagTrue()(ph) }, true))
+					c.Expect(t && g, p.Instrs[len(p.Instrs)-1], f, "walk-stops-only-at-a-terminal-policy-with-a-hash", "the policy walk is left on an edge that is not 'terminal policy and a hash was generated'")
+				}
+			}
+		}
 		// header lookups use the policy's header name
 		fHN := c.field(xdsrsrc, "HashPolicy", "HeaderName")
+		if gets := callsIn(f, Callee("metadata", "MD.Get")); len(gets) == 2 {
+			first, second := gets[0], gets[1]
+			if instrDominates(second, first) {
+				first, second = second, first
+			}
+			c.MustFact(second, "outgoing-metadata-consulted-only-without-extra-metadata-value", CmpInt(LenOf(func(v ssa.Value) bool { return v == first.Value() }), token.EQL, 0))
+		}
+		// only a header that is present contributes: the joined values come from a lookup that returned something
+		for _, j := range callsIn(f, CalleeX("strings", "Join")) {
+			ph, ok := j.Common().Args[0].(*ssa.Phi)
+			if !c.Expect(ok, j, f, "joined-values-from-the-lookups", "the hashed header values are not chosen between the two metadata lookups") {
+				continue
+			}
+			for i, e := range ph.Edges {
+				e := e
+				pr := ph.Block().Preds[i]
+				fs := append(append([]Fact(nil), FactsAtBlock(pr)...), edgeOnlyFacts(pr, ph.Block())...)
+				_, ok := hasFact(fs, CmpInt(LenOf(func(v ssa.Value) bool { return v == e }), token.NEQ, 0))
+				c.Expect(ok && CallRes(Callee("metadata", "MD.Get"), 0)(e), j, f, "absent-header-contributes-nothing", "an absent header (empty lookup) is hashed instead of being skipped")
+			}
+		}
+		for _, rx := range callsIn(f, CalleeX("regexp", "Regexp.ReplaceAllString")) {
+			c.MustFact(rx, "regex-applied-only-when-configured", NotNil(FieldLoad(c.field(xdsrsrc, "HashPolicy", "Regex"))))
+		}
 		for _, g := range callsIn(f, Callee("metadata", "MD.Get")) {
 			c.ArgIs(g, 1, "lookup-by-policy-header-name", FieldLoad(fHN))
 			c.Unreachable(g, "bin-headers-skipped", Truth(callArgs(CalleeX("strings", "HasSuffix"), FieldLoad(fHN), ConstStr("-bin")), true))
